@@ -997,6 +997,23 @@ struct InFlight {
     since: Instant,
     name: String,
     tape: Vec<u8>,
+    /// the case has started the release binary (which runs under its own CPU limits): the long
+    /// limit applies; a case that only calls library code in-process gets the short one
+    binary: bool,
+}
+
+thread_local! {
+    static CURRENT_SHARD: std::cell::Cell<Option<usize>> = const { std::cell::Cell::new(None) };
+}
+
+/// Called by `binrun::run`: the case in flight on this thread runs a subprocess.
+pub fn watchdog_note_binary() {
+    if let Some(shard) = CURRENT_SHARD.with(|c| c.get()) {
+        let mut g = IN_FLIGHT.lock().unwrap();
+        if let Some(Some(slot)) = g.get_mut(shard) {
+            slot.binary = true;
+        }
+    }
 }
 
 static IN_FLIGHT: Mutex<Vec<Option<InFlight>>> = Mutex::new(Vec::new());
@@ -1010,7 +1027,8 @@ fn watchdog_enter(shard: usize, name: &str, tape: &[u8]) {
     if g.len() <= shard {
         g.resize_with(shard + 1, || None);
     }
-    g[shard] = Some(InFlight { since: Instant::now(), name: name.to_string(), tape: tape.to_vec() });
+    g[shard] = Some(InFlight { since: Instant::now(), name: name.to_string(), tape: tape.to_vec(), binary: false });
+    CURRENT_SHARD.with(|c| c.set(Some(shard)));
 }
 
 fn watchdog_leave(shard: usize) {
@@ -1018,10 +1036,11 @@ fn watchdog_leave(shard: usize) {
     if let Some(slot) = g.get_mut(shard) {
         *slot = None;
     }
+    CURRENT_SHARD.with(|c| c.set(None));
 }
 
 /// Start the monitor thread (once per process).
-pub fn start_watchdog(property: &str, limit: std::time::Duration, seed: u64, tier: Tier) {
+pub fn start_watchdog(property: &str, in_process_limit: std::time::Duration, binary_limit: std::time::Duration, seed: u64, tier: Tier) {
     let property = property.to_string();
     let ctx = Ctx {
         id: property.clone(),
@@ -1036,6 +1055,7 @@ pub fn start_watchdog(property: &str, limit: std::time::Duration, seed: u64, tie
         std::thread::sleep(std::time::Duration::from_secs(5));
         let g = IN_FLIGHT.lock().unwrap();
         for slot in g.iter().flatten() {
+            let limit = if slot.binary { binary_limit } else { in_process_limit };
             if slot.since.elapsed() > limit {
                 let dir = format!("/verif/replays/{property}");
                 let _ = std::fs::create_dir_all(&dir);
